@@ -584,15 +584,15 @@ def prof_cfg(g, n):
         def cfg():
             return g.pick(atoms) if g.chance(0.45) else None
 
-        targets = {"register": [], "command": []}
+        targets = {"register": [], "command": [], "block": []}
 
         def leaf(depth):
             name = g.fresh(["Reg", "Cmd", "Buf", "Stat", "Ctl"])
-            if g.chance(0.2) and (targets["register"] or targets["command"]):
+            if g.chance(0.25) and any(targets.values()):
                 # a ref is gated by its OWN cfg and the blocks enclosing the REF - not by its target's
                 kind = g.pick([k for k in targets if targets[k]])
-                o = {"kind": "ref", "name": g.fresh(["Alias", "Copy", "Mirror"]), "target": g.pick(targets[kind]),
-                     "override": {"kind": kind, "address": "0", "allow_address_overlap": True}}
+                ov = {"kind": "block", "address_offset": "64"} if kind == "block" else {"kind": kind, "address": "0", "allow_address_overlap": True}
+                o = {"kind": "ref", "name": g.fresh(["Alias", "Copy", "Mirror"]), "target": g.pick(targets[kind]), "override": ov}
                 c = cfg()
                 if c:
                     o["cfg"] = c
@@ -633,6 +633,9 @@ def prof_cfg(g, n):
                     if c:
                         b["cfg"] = c
                     objs.append(b)
+                    # only blocks without buffers and without refs inside can be ref'd without colliding / recursing
+                    if not any(x["kind"] in ("buffer", "ref", "block") for x in b["objects"]):
+                        targets["block"].append(b["name"])
                     # objects following the end of a nested block, at this (shallower) depth
                     if g.chance(0.7):
                         objs.append(leaf(depth))
